@@ -2,19 +2,19 @@
 //
 // Cases (first element = tag):
 //   (1 obj sr ch raw)   ADTSImpl{asc}.Encode(raw), then Decode of the output on a fresh ADTS
-//                       -> (0 adts <dec>) | (1 code)
+//                       -> (0 adts <dec>) | (1)
 //   (2 data)            Decode(data) on a fresh ADTS                     -> <dec>
 //   (3 data)            decode frame after frame until nothing is left   -> ((raw obj sr ch)...) <end>
-//                       <end> = (0) | (1 code obj sr ch)
+//                       <end> = (0) | (1 obj sr ch)
 //   (4 data)            AudioSpecificConfig.UnmarshalBinary(data), then MarshalBinary
-//                       -> (0 obj sr ch bytes) | (1 code obj sr ch)
+//                       -> (0 obj sr ch bytes) | (1 obj sr ch)
 //   (5 hi)              the 256 two-byte configs hi,0..255: per config (1 obj sr ch b0 b1) accepted
-//                       (b0 b1 = re-marshalled bytes) or (0 code)
-//   (6 obj sr ch)       AudioSpecificConfig{obj,sr,ch}.MarshalBinary     -> (0 bytes) | (1 code)
+//                       (b0 b1 = re-marshalled bytes) or (0)
+//   (6 obj sr ch)       AudioSpecificConfig{obj,sr,ch}.MarshalBinary     -> (0 bytes) | (1)
 //   (7 v)               SampleRateIndex(v).ToHz, ObjectType(v).ToProfile, Profile(v).ToObjectType
 //                       and the texts of the four String helpers -> (0 hz profile object s1 s2 s3 s4) | (2)
 //   (8 cfg raw)         NewADTS(); SetASC(cfg); Encode(raw); Decode(output), all on the same object
-//                       -> (<set> (0 adts <dec>)) | (<set> (1 code)),  <set> = (0 obj sr ch) | (1 code obj sr ch)
+//                       -> (<set> (0 adts <dec>)) | (<set> (1 code)),  <set> = (0 obj sr ch) | (1 obj sr ch)
 //   (9 id layer pa profile sfi priv ch orig home cbit cstart fullness nblocks crc raw tail)
 //                       frame written by the reference ISO 13818-7 writer ++ tail, Decode
 //                       -> (0 frame <dec>)
@@ -24,7 +24,7 @@
 //                       -> (0 frame <dec>)
 //   (11 (op...))        a HISTORY on one ADTS object (NewADTS), op = (0 cfg) SetASC | (1 raw) Encode |
 //                       (2 data) Decode | (3 obj sr ch) *adts.ASC() = config.  One entry per op:
-//                       (0 obj sr ch) | (1 code obj sr ch) for SetASC, (0 frame) | (1 code) for Encode,
+//                       (0 obj sr ch) | (1 obj sr ch) for SetASC, (0 frame) | (1) for Encode,
 //                       <dec> for Decode, (0 obj sr ch) for the assignment.  Every frame returned by
 //                       Encode is KEPT (not copied) and reported as it is after the last operation; the
 //                       raw input of each Encode is overwritten right after the call.
@@ -33,10 +33,9 @@
 //                       generated payloads (byte i = fill + 31 i + i/256), cut bytes are removed from the
 //                       end and extra is appended; decoded frame after frame with the remainder fed back
 //                       -> (total ((|raw| adler32(raw) obj sr ch)...) <end>)
-//   <dec> = (0 raw left obj sr ch) | (1 code obj sr ch) | (2)      (obj sr ch = ASC() afterwards)
-// Error codes: 1 "requires 7+", 2 "invalid signature", 3 "requires 2+" (CRC), 4 "requires n"
-// (raw block), 5 invalid object, 6 invalid sample-rate, 7 invalid channels, 8 ASC "requires 2",
-// 9 "invalid frame length" (smaller than the header).
+//   <dec> = (0 raw left obj sr ch) | (1 obj sr ch) | (2)      (obj sr ch = ASC() afterwards)
+// An error is observed as (1 ...) without any code: the wording of error messages is not part of
+// the property, the configuration left behind (obj sr ch) is.
 //
 // Direct oracles (independent of the Coq model): a reference ISO ADTS bit writer and bit
 // parser written from ISO/IEC 13818-7 6.2, the ISO sampling-frequency table, the
@@ -47,10 +46,8 @@ import (
 	"bytes"
 	"fmt"
 	"hash/adler32"
-	"strings"
 	"testing"
 
-	oe "github.com/ossrs/go-oryx-lib/errors"
 )
 
 // ---------- reference ISO 13818-7 writer / parser (bit level) ----------
@@ -227,30 +224,9 @@ func vC11ProfileOf(o int) int {
 }
 
 // ---------- running the implementation ----------
-func vC11Code(err error, asc bool) int {
-	m := oe.Cause(err).Error()
-	switch {
-	case asc && strings.HasPrefix(m, "requires 2 but only"):
-		return 8
-	case strings.HasPrefix(m, "requires 7+"):
-		return 1
-	case strings.HasPrefix(m, "invalid signature"):
-		return 2
-	case strings.HasPrefix(m, "invalid frame length"):
-		return 9
-	case strings.HasPrefix(m, "requires 2+"):
-		return 3
-	case strings.HasPrefix(m, "requires "):
-		return 4
-	case strings.HasPrefix(m, "invalid object"):
-		return 5
-	case strings.HasPrefix(m, "invalid sample-rate"):
-		return 6
-	case strings.HasPrefix(m, "invalid channels"):
-		return 7
-	}
-	return 99
-}
+// an error observation never depends on the error's wording (the property does not constrain it):
+// it is "error" plus the state left behind, which tells the stages of Decode/SetASC apart
+func vC11Err() vSx { return vL(vZ(1)) }
 
 type vC11Dec struct {
 	panicked  bool
@@ -275,7 +251,7 @@ func (d vC11Dec) obs() vSx {
 		return vPanicObs()
 	}
 	if d.err != nil {
-		return vL(vZ(1), vI(vC11Code(d.err, false)), vI(d.o), vI(d.sr), vI(d.ch))
+		return vL(vZ(1), vI(d.o), vI(d.sr), vI(d.ch))
 	}
 	return vL(vZ(0), vB(d.raw), vB(d.left), vI(d.o), vI(d.sr), vI(d.ch))
 }
@@ -354,7 +330,7 @@ func vC11Run(c vSx) (r vC11Res) {
 		adts, err := a.Encode(raw)
 		acc := vC11Accepted(o, sr, ch)
 		if err != nil {
-			r.obs = vErr(vC11Code(err, false))
+			r.obs = vC11Err()
 			if acc {
 				r.bad("adts-rt", fmt.Sprintf("accepted config (%d,%d,%d) refused by Encode: %v", o, sr, ch, err))
 			}
@@ -424,7 +400,7 @@ func vC11Run(c vSx) (r vC11Res) {
 				break
 			}
 			if d.err != nil {
-				end = vL(vZ(1), vI(vC11Code(d.err, false)), vI(d.o), vI(d.sr), vI(d.ch))
+				end = vL(vZ(1), vI(d.o), vI(d.sr), vI(d.ch))
 				break
 			}
 			frames = append(frames, vL(vB(d.raw), vI(d.o), vI(d.sr), vI(d.ch)))
@@ -452,7 +428,7 @@ func vC11Run(c vSx) (r vC11Res) {
 			}
 			r.obs = vOk(vI(o), vI(sr), vI(ch), vB(b))
 		} else {
-			r.obs = vL(vZ(1), vI(vC11Code(err, true)), vI(o), vI(sr), vI(ch))
+			r.obs = vL(vZ(1), vI(o), vI(sr), vI(ch))
 		}
 		if len(data) >= 2 {
 			r.checkAsc(data[0], data[1], err == nil, o, sr, ch, b)
@@ -477,7 +453,7 @@ func vC11Run(c vSx) (r vC11Res) {
 				items = append(items, vL(vZ(1), vI(o), vI(sr), vI(ch), vI(int(b[0])), vI(int(b[1]))))
 				r.nontrivial = true
 			} else {
-				items = append(items, vL(vZ(0), vI(vC11Code(err, true))))
+				items = append(items, vL(vZ(0)))
 			}
 			r.checkAsc(hi, byte(lo), err == nil, o, sr, ch, b)
 		}
@@ -488,7 +464,7 @@ func vC11Run(c vSx) (r vC11Res) {
 		b, err := asc.MarshalBinary()
 		acc := vC11Accepted(o, sr, ch)
 		if err != nil {
-			r.obs = vErr(vC11Code(err, true))
+			r.obs = vC11Err()
 			if acc {
 				r.bad("asc-marshal", fmt.Sprintf("accepted config (%d,%d,%d) refused: %v", o, sr, ch, err))
 			}
@@ -540,11 +516,11 @@ func vC11Run(c vSx) (r vC11Res) {
 		o, sr, ch := int(a.asc.Object), int(a.asc.SampleRate), int(a.asc.Channels)
 		set := vL(vZ(0), vI(o), vI(sr), vI(ch))
 		if serr != nil {
-			set = vL(vZ(1), vI(vC11Code(serr, true)), vI(o), vI(sr), vI(ch))
+			set = vL(vZ(1), vI(o), vI(sr), vI(ch))
 		}
 		adts, err := a.Encode(raw)
 		if err != nil {
-			r.obs = vL(set, vErr(vC11Code(err, false)))
+			r.obs = vL(set, vC11Err())
 			if serr == nil {
 				r.bad("setasc-encode", fmt.Sprintf("config %x accepted by SetASC but Encode fails: %v", cfg, err))
 			}
@@ -605,7 +581,7 @@ func vC11Run(c vSx) (r vC11Res) {
 			}
 			off := len(data) - len(left)
 			if d.err != nil {
-				end = vL(vZ(1), vI(vC11Code(d.err, false)), vI(d.o), vI(d.sr), vI(d.ch))
+				end = vL(vZ(1), vI(d.o), vI(d.sr), vI(d.ch))
 				if conformant {
 					r.bad("long-stream", fmt.Sprintf("stream of %d bytes, %d frames: frame %d at offset %d (%d bytes follow) rejected: %v", len(data), len(want), n, off, len(left), d.err))
 				}
@@ -669,7 +645,7 @@ func vC11Run(c vSx) (r vC11Res) {
 				}
 				o, sr, ch := int(a.asc.Object), int(a.asc.SampleRate), int(a.asc.Channels)
 				if err != nil {
-					outs = append(outs, vL(vZ(1), vI(vC11Code(err, true)), vI(o), vI(sr), vI(ch)))
+					outs = append(outs, vL(vZ(1), vI(o), vI(sr), vI(ch)))
 				} else {
 					outs = append(outs, vL(vZ(0), vI(o), vI(sr), vI(ch)))
 				}
@@ -690,7 +666,7 @@ func vC11Run(c vSx) (r vC11Res) {
 					continue
 				}
 				if err != nil {
-					outs = append(outs, vErr(vC11Code(err, false)))
+					outs = append(outs, vC11Err())
 					if known && vC11Accepted(so, ssr, sch) {
 						r.bad("history-encode", fmt.Sprintf("op %d: configuration (%d,%d,%d) in force, Encode fails: %v", len(outs)-1, so, ssr, sch, err))
 					}
